@@ -23,6 +23,9 @@ import WuffsVerif.Proof.RacCrc
 import WuffsVerif.Proof.RacRoundtrip
 import WuffsVerif.Proof.RacToyCodec
 import WuffsVerif.Proof.RacResources
+import WuffsVerif.Proof.RacRoundtripR
+import WuffsVerif.Proof.RacDict
+import WuffsVerif.Proof.RacDictCodec
 
 namespace WuffsVerif.Props.C13
 open WuffsVerif.Rac
@@ -451,5 +454,138 @@ theorem hcodec_compress_roundtrip (v : HCodec.Variant) (p q : Bytes) (rs : List 
 /-- the node checksum computed by the writer model and the one recomputed by the independent spec
 reader are the same function of the node bytes (two separately written CRC-32/IEEE routines) -/
 theorem checksum_agrees (bs : Bytes) : (crc32 bs).toNat = Spec.crc32 bs := crc32_eq_spec bs
+
+/-! ## 8. Shared resources -/
+
+/-- `use_resource_sound`: `rac.Writer.useResource`'s id bookkeeping.  If the table `resourcesIDs` is sound
+(`IdsOK`: a non-zero entry `i` is an id under which the ChunkWriter registered exactly
+`WrapResource(ResourcesData[i])`; the table has one entry per resource) then a successful `useResource(i)`
+returns an id that is 0 exactly for an out-of-range index (`NoResourceUsed`, or `len(ResourcesData)` and
+beyond — the repaired bound), is known to the ChunkWriter, and under which the ChunkWriter holds
+`WrapResource(ResourcesData[i])` (`wrappedOf`); earlier registrations are untouched (resources are only
+appended); the table stays sound.  A failing call records its error. -/
+theorem use_resource_sound (cw : CodecW) (w : Writer) (i : Int) (hids : IdsOK cw w) :
+    ((Writer.useResource cw w i).2.2 = none →
+      IdsOK cw (Writer.useResource cw w i).1 ∧
+      (∃ ext, (Writer.useResource cw w i).1.chunkWriter.resLog.reverse = w.chunkWriter.resLog.reverse ++ ext) ∧
+      (Writer.useResource cw w i).2.1 ≤ (Writer.useResource cw w i).1.chunkWriter.resLog.length ∧
+      wrappedOf cw w.resourcesData i =
+        some (resAt (Writer.useResource cw w i).1.chunkWriter.resLog.reverse (Writer.useResource cw w i).2.1) ∧
+      ((Writer.useResource cw w i).2.1 ≠ 0 → ResInRange w.resourcesData i)) ∧
+    ((Writer.useResource cw w i).2.2 ≠ none → (Writer.useResource cw w i).1.err ≠ none) :=
+  Writer.useResourceR cw w i hids
+
+/-- non-vacuity: a fresh table after `initialize` is sound, and using resource 0 registers it under id 1 -/
+example :
+    let cw := HCodec.codecW { codec := 0x3E00000000000000, oob := false }
+    let w : Writer := { resourcesData := [[9, 9]], resourcesIDs := [0], inited := true, tempKind := 0,
+                        dChunkSize := 4 }
+    (Writer.useResource cw w 0).2.1 = 1 ∧ (Writer.useResource cw w 0).2.2 = none ∧
+    (Writer.useResource cw w 0).1.resourcesIDs = [1] ∧
+    (Writer.useResource cw w 0).1.chunkWriter.resLog = [[2, 0, 0, 0, 9, 9]] := by
+  decide +kernel
+
+/-- `rac_roundtrip_resources`, property C13 over the models with the decompressor reading *all three* CRanges.
+For every codec meeting the resource-aware contract (`CodecContractR`: `Compress(p, q, resourcesData)`
+decompresses to `p ++ q` given the `WrapResource` forms of the resources it names, which are non-empty; `Cut`
+leaves a valid prefix), whose decompressor tolerates unrelated bytes after the chunk and after a (non-empty)
+resource, and which never names the "Zeroes" codec; every configuration (sizing mode, page size, index location,
+temp-file kind, resources) and fault position; every sequence of `Write` calls on a fresh Writer: if `Close`
+returns nil then the bytes that reached `Writer` pass the independent spec reader's validation, and decoding
+them — the decompressor being handed, chunk by chunk, the bytes of the primary, secondary and tertiary CRanges
+the reader computed from the index — gives exactly the written bytes. -/
+def rac_roundtrip_resources_statement : Prop :=
+  ∀ (cw : CodecW) (DR : Bytes → Bytes → Bytes → Option Bytes), CodecContractR cw DR →
+    (∀ a b s s' t t' d, DR a s t = some d → (s = [] → s' = []) → (t = [] → t' = []) →
+      DR (a ++ b) (s ++ s') (t ++ t') = some d) →
+    (∀ a b rs out, cw.compress a b rs = .ok out → out.codec ≠ 0 ∧ out.codec ≠ 2 ^ 63) →
+  ∀ (w0 : Writer), (w0.err = none ∧ w0.closed = false ∧ w0.inited = false ∧ w0.chunkWriter = { io := { failAt := w0.chunkWriter.io.failAt } } ∧
+      w0.uncompressed = {}) →
+  ∀ (ps : List Bytes), ((Writer.runWrites cw w0 ps).Close cw).2 = none →
+    Spec.validate (fileOf ((Writer.runWrites cw w0 ps).Close cw).1) = true ∧
+    Spec.decode (fileOf ((Writer.runWrites cw w0 ps).Close cw).1) (fun _ p s t => DR p s t) = .ok ps.flatten
+
+/-- **`rac_roundtrip_resources`** (proved; `Proof/RacWriterR, RacWriterR2, RacRoundtripR.lean`). -/
+theorem rac_roundtrip_resources : rac_roundtrip_resources_statement := by
+  intro cw DR hc hDR hz w0 hfresh ps hok
+  exact rac_roundtrip_resources_thm cw DR hc hDR hz w0 hfresh ps hok
+
+/-- `racdict_load_inverts_wrap`: what `racdict.Loader.Load` extracts from a secondary CRange that starts with
+`Saver.WrapResource(raw)` (possibly followed by unrelated bytes; TTag 0xFF, empty tertiary) is `refine(raw)` —
+the length prefix, the reserved bits and the CRC-32 check all pass — for any `refine`. -/
+theorem racdict_load_inverts_wrap (refine : Bytes → Bytes) (raw wrapped : Bytes)
+    (h : Dict.wrapResource refine raw = .ok wrapped) (extra : Bytes) :
+    Dict.load (wrapped ++ extra) false 0xFF = .ok (refine raw) :=
+  Dict.load_wrapResource refine raw wrapped h extra
+
+/-- `racdict_dictionaries_agree`: whatever the codec's own `compress` and `refine` are, if `Saver.Compress`
+succeeds then either it names no resource and returns `compress(p, q, nil)`, or it names `resourcesData[j]`,
+returns `compress(p, q, refine(resourcesData[j]))`, and `Loader.Load` on what `Saver.WrapResource` stores for
+that resource returns exactly `refine(resourcesData[j])`: the compressor and the decompressor are given the
+same dictionary.  (The seeded change C13-m1 — compress against the raw resource — makes the Go code disagree
+with this model on the `dictsel` ops.) -/
+theorem racdict_dictionaries_agree (compress : Bytes → Bytes → Bytes → Except Dict.DErr Bytes)
+    (refine : Bytes → Bytes) (p q : Bytes) (rs : List Bytes) (out : Bytes) (sec : Int)
+    (h : Dict.saverCompress compress refine p q rs = .ok (out, sec)) :
+    (sec = -1 ∧ compress p q [] = .ok out) ∨
+    (∃ j, j < rs.length ∧ sec = (j : Int) ∧ compress p q (refine (rs.getD j [])) = .ok out ∧
+      ∃ wrapped, Dict.wrapResource refine (rs.getD j []) = .ok wrapped ∧
+        ∀ extra, Dict.load (wrapped ++ extra) false 0xFF = .ok (refine (rs.getD j []))) :=
+  Dict.saverCompress_spec compress refine p q rs out sec h
+
+/-- raczlib's `refine` keeps a suffix of at most 32 KiB -/
+theorem zlib_refine_window (b : Bytes) :
+    (Dict.refineZlib b).length = min b.length 32768 ∧ ∃ pre, b = pre ++ Dict.refineZlib b :=
+  ⟨Dict.refineZlib_length b, Dict.lastN_suffix 32768 b⟩
+
+/-- `racdict_codec_contract`: every CodecWriter/CodecReader pair built on `racdict` the way raczlib and raczstd
+are (`Saver.Compress` around the codec's `compress(p, q, dict)`, `Saver.WrapResource`; `Loader.Load` then the
+codec's decompressor with that dictionary) meets `CodecContractR`, and its reader side tolerates trailing bytes,
+provided the codec's own compressor and decompressor agree when given the same dictionary (`H1`) and the
+decompressor ignores bytes after its stream (`H2`).  So `rac_roundtrip_resources` applies to them. -/
+theorem racdict_codec_contract (codec : Nat) (compress : Bytes → Bytes → Bytes → Except Dict.DErr Bytes)
+    (refine : Bytes → Bytes) (decompress : Bytes → Bytes → Option Bytes)
+    (H1 : ∀ p q dict out, compress p q dict = .ok out → decompress out dict = some (p ++ q))
+    (H2 : ∀ a b dict d, decompress a dict = some d → decompress (a ++ b) dict = some d) :
+    CodecContractR (Dict.dictCodecW codec compress refine) (Dict.dictDR decompress) ∧
+    (∀ a b s s' t t' d, Dict.dictDR decompress a s t = some d → (s = [] → s' = []) → (t = [] → t' = []) →
+      Dict.dictDR decompress (a ++ b) (s ++ s') (t ++ t') = some d) :=
+  ⟨Dict.racdict_codec_contract codec compress refine decompress H1, Dict.dictDR_ext decompress H2⟩
+
+/-- non-vacuity: the hypotheses of `rac_roundtrip_resources` are jointly satisfiable — by a codec on top of the
+`racdict` model (raczlib's `refine`; toy compressor that drops a dictionary prefix) … -/
+theorem roundtrip_resources_hyps_satisfiable :
+    ∃ (cw : CodecW) (DR : Bytes → Bytes → Bytes → Option Bytes), CodecContractR cw DR ∧
+      (∀ a b s s' t t' d, DR a s t = some d → (s = [] → s' = []) → (t = [] → t' = []) →
+        DR (a ++ b) (s ++ s') (t ++ t') = some d) ∧
+      (∀ a b rs out, cw.compress a b rs = .ok out → out.codec ≠ 0 ∧ out.codec ≠ 2 ^ 63) :=
+  ⟨Dict.toyDictCodecW, Dict.dictDR Dict.tdecompress, Dict.toyDict_contract, Dict.dictDR_ext _ Dict.toy_H2,
+    Dict.toyDict_notZeroes⟩
+
+set_option maxRecDepth 1000000 in
+/-- … with which a session whose single 128-byte chunk starts with the 120-byte resource closes with nil and
+*uses* the resource (the accepted chunk names resource id 1: the dictionary won `Saver.Compress`'s heuristic,
+baseline 258 bytes against 18) … -/
+example :
+    let R : Bytes := List.replicate 120 7
+    let w0 : Writer := { dChunkSizeCfg := 128, resourcesData := [R] }
+    let r := (Writer.runWrites Dict.toyDictCodecW w0 [R ++ [1, 2, 3, 4, 5, 6, 7, 8]]).Close Dict.toyDictCodecW
+    (r.2.isNone && (r.1.chunkWriter.log.map (·.secondary) == [1])) = true := by
+  decide +kernel
+
+set_option maxRecDepth 1000000 in
+/-- … and `rac_roundtrip_resources` applied to that session (the theorem instantiated, not re-computed): the
+file validates and decodes, through the dictionary stored in it, to the 128 written bytes -/
+example :
+    let R : Bytes := List.replicate 120 7
+    let w0 : Writer := { dChunkSizeCfg := 128, resourcesData := [R] }
+    let r := (Writer.runWrites Dict.toyDictCodecW w0 [R ++ [1, 2, 3, 4, 5, 6, 7, 8]]).Close Dict.toyDictCodecW
+    Spec.validate (fileOf r.1) = true ∧
+    Spec.decode (fileOf r.1) (fun _ p s t => Dict.dictDR Dict.tdecompress p s t) = .ok (R ++ [1, 2, 3, 4, 5, 6, 7, 8]) := by
+  have h := rac_roundtrip_resources Dict.toyDictCodecW (Dict.dictDR Dict.tdecompress) Dict.toyDict_contract
+    (Dict.dictDR_ext _ Dict.toy_H2) Dict.toyDict_notZeroes
+    { dChunkSizeCfg := 128, resourcesData := [List.replicate 120 7] } ⟨rfl, rfl, rfl, rfl, rfl⟩
+    [List.replicate 120 7 ++ [1, 2, 3, 4, 5, 6, 7, 8]] (by decide +kernel)
+  simpa using h
 
 end WuffsVerif.Props.C13
